@@ -37,15 +37,18 @@ pub enum Item {
     Tx(CardanoTransaction),
 }
 
-pub fn gen_world(rng: &mut ChaCha20Rng, n_ranges: usize, mon: &mut Monitor) -> Result<SetWorld, String> {
+/// `fixed_shape`: the first range holds exactly one block with three transactions (leaves
+/// [Block, Tx, Tx, Tx]: a transaction at an even leaf index with a right sibling always exists)
+pub fn gen_world(rng: &mut ChaCha20Rng, n_ranges: usize, fixed_shape: bool, mon: &mut Monitor) -> Result<SetWorld, String> {
     let mut ranges = vec![];
     let mut entries = vec![];
     let (mut blocks, mut txs) = (vec![], vec![]);
     let mut range_no = rnd::below(rng, 40);
-    for _ in 0..n_ranges {
+    for ri in 0..n_ranges {
         range_no += 1 + rnd::below(rng, 3);
         let start = range_no * 15;
-        let nb = 1 + rnd::usize_below(rng, 3);
+        let fixed = fixed_shape && ri == 0;
+        let nb = if fixed { 1 } else { 1 + rnd::usize_below(rng, 3) };
         let mut bs: Vec<CardanoBlock> = vec![];
         let mut ts: Vec<CardanoTransaction> = vec![];
         for b in 0..nb {
@@ -53,7 +56,8 @@ pub fn gen_world(rng: &mut ChaCha20Rng, n_ranges: usize, mon: &mut Monitor) -> R
             let slot = number * 20 + rnd::below(rng, 20);
             let bh = hex::encode(rnd::bytes(rng, 32));
             bs.push(CardanoBlock::new(bh.clone(), BlockNumber(number), SlotNumber(slot)));
-            for _ in 0..rnd::usize_below(rng, 4) {
+            let ntx = if fixed { 3 } else { rnd::usize_below(rng, 4) };
+            for _ in 0..ntx {
                 ts.push(CardanoTransaction::new(hex::encode(rnd::bytes(rng, 32)), BlockNumber(number), SlotNumber(slot), bh.clone()));
             }
         }
@@ -124,8 +128,8 @@ fn judge_txs(w: &SetWorld, items: &[CardanoTransaction], m: &MapProofM, class: &
             }
         } else {
             let shape = shape_of(w, m);
-            crate::viol::report(mon, &format!("C09 MkSetProof<CardanoTransaction> verifies against the committed root for a transaction that was never committed: {shape}"), || format!(
-                    "MkSetProof::verify = Ok (wire form MkSetProofMessagePart::verify: {wire_ok}) and merkle_root() equals the committed root, but item {:?} is not one of the {} committed transactions; mutation class {class}",
+            crate::viol::report(mon, &format!("C09 set proof certifies an item that was never committed: {shape}"), || format!(
+                    "[MkSetProof<CardanoTransaction>] a transaction that was never committed is certified: MkSetProof::verify = Ok (wire form MkSetProofMessagePart::verify: {wire_ok}) and merkle_root() equals the committed root, but item {:?} is not one of the {} committed transactions; mutation class {class}",
                     false_items[0],
                     w.txs.len()
                 ), || json!({"kind": "mksetproof-tx", "map": w.map.to_json(), "proof": m.to_json(), "class": class, "witness_shape": shape,
@@ -149,7 +153,7 @@ fn judge_blocks(w: &SetWorld, items: &[CardanoBlock], m: &MapProofM, class: &str
     }
     if accepted && !false_items.is_empty() {
         let shape = shape_of(w, m);
-        crate::viol::report(mon, &format!("C09 MkSetProof<CardanoBlock> verifies against the committed root for a block that was never committed: {shape}"), || format!("item {:?} is not a committed block; mutation class {class}", false_items[0]), || json!({"kind": "mksetproof-block", "map": w.map.to_json(), "proof": m.to_json(), "class": class, "witness_shape": shape,
+        crate::viol::report(mon, &format!("C09 set proof certifies an item that was never committed: {shape}"), || format!("[MkSetProof<CardanoBlock>] a block that was never committed is certified: item {:?} is not a committed block; mutation class {class}", false_items[0]), || json!({"kind": "mksetproof-block", "map": w.map.to_json(), "proof": m.to_json(), "class": class, "witness_shape": shape,
                    "items": items.iter().map(|b| json!([b.block_hash, *b.block_number, *b.slot_number])).collect::<Vec<_>>()}));
     }
     accepted
@@ -163,7 +167,7 @@ fn shape_of(w: &SetWorld, m: &MapProofM) -> String {
             mkmap::false_claims(s, child, "", &mut fc, &mut total);
             if !fc.is_empty() {
                 if let RefNode::Tree(t) = child {
-                    return format!("sub-proof: {}", mk::witness_shape(t, &s.master_proof));
+                    return mk::witness_shape(t, &s.master_proof).to_string();
                 }
             }
         } else {
@@ -171,7 +175,7 @@ fn shape_of(w: &SetWorld, m: &MapProofM) -> String {
         }
     }
     if !w.map.top.master.false_claims(&m.master_proof).is_empty() {
-        return format!("master proof: {}", mk::witness_shape(&w.map.top.master, &m.master_proof));
+        return mk::witness_shape(&w.map.top.master, &m.master_proof).to_string();
     }
     "item accepted without being listed by the proof".into()
 }
@@ -385,11 +389,11 @@ pub fn run_legacy(rng: &mut ChaCha20Rng, mon: &mut Monitor) {
         }
         if accepted && !false_items.is_empty() {
             let shape = if class.starts_with("forged_hash_with_duplicate") {
-                "sub-proof: entry with a duplicated position is skipped by verification but still listed"
+                "entry with a duplicated position is skipped by verification but still listed"
             } else {
                 "other"
             };
-            crate::viol::report(mon, &format!("C09 CardanoTransactionsSetProof verifies against the committed root for a transaction hash that was never committed: {shape}"), || format!("hash {} is not committed; mutation class {class}", false_items[0]), || json!({"kind": "legacy-setproof", "map": w.to_json(), "proof": pm.to_json(), "hashes": hashes, "class": class}));
+            crate::viol::report(mon, &format!("C09 set proof certifies an item that was never committed: {shape}"), || format!("[CardanoTransactionsSetProof] a transaction hash that was never committed is certified: hash {} is not committed; mutation class {class}", false_items[0]), || json!({"kind": "legacy-setproof", "map": w.to_json(), "proof": pm.to_json(), "hashes": hashes, "class": class}));
         }
     }
 }
